@@ -82,6 +82,9 @@ def judge(case, rec, slack_ms=250.0):
     def V(key, what, detail=None, timing=False):
         viol.append(dict(key=key, what=what, detail=detail or {}, timing=timing))
 
+    if rec.get("crashed"):
+        return dict(viol=[], obs=Counter({"cases_ended_by_process_abort": 1}), sig=(case.group, "process-abort"),
+                    sample=dict(case=case.describe(), crashed=True), notes=[])
     if rec.get("hang"):
         V("C17:call-never-returned", "an HttpClient call did not return before the case watchdog (%d ms)" % case.wd,
           dict(last_events=ev[-12:]), timing=True)
@@ -175,10 +178,45 @@ def judge(case, rec, slack_ms=250.0):
             obs["idempotent_requests"] += 1
             if len(tl) >= 2:
                 obs["idempotent_retransmissions"] += len(tl) - 1
-        if len(tl) > r.budget + 1 or nsleep > r.budget:
+        # attempts that never put a byte on the wire (refused connects) are visible as connect() calls; attributed by the
+        # request current at the time of the call, which is exact where the case issues requests one after the other
+        nconn = sum(1 for e in ev if e["e"] == "c_connect" and e.get("cur") == i) if case.group == "large-budget" else 0
+        ok_after_scripted_failures = case.group == "large-budget" and (rets.get(i, (None, {}))[1] or {}).get("ok")
+        obs["attempts_counted_max"] = max(obs["attempts_counted_max"], len(tl), nconn)
+        if len(tl) > r.budget + 1 or nsleep > r.budget or nconn > r.budget + 1 or ok_after_scripted_failures:
             V("C17:%s:budget-exceeded" % r.method,
-              "%s %s with retry budget %d: %d transmission(s), %d back-off sleep(s)" % (r.method, r.token, r.budget, len(tl), nsleep),
+              "%s %s with retry budget %d: %d transmission(s), %d connect() call(s), %d back-off sleep(s)%s"
+              % (r.method, r.token, r.budget, len(tl), nconn, nsleep,
+                 "; the call succeeded although the first budget+3 attempts were scripted to fail" if ok_after_scripted_failures else ""),
               dict(transmissions=tl, sleeps=[e for _, e in sleeps.get(i, [])]))
+
+    # ---- R8: the back-off itself, judged logically (never timed): every retry is preceded by a back-off sleep, no
+    # requested back-off is below the 100 ms base, and the requested durations never decrease (jitter is 0..99 ms).
+    # A wrapped `1 << attempt` shows as a missing sleep (non-positive duration: sleep_for does not sleep), a tiny one, or a drop.
+    for i, r in enumerate(reqs):
+        sl = [e["req_ms"] for _, e in sleeps.get(i, [])]
+        if not sl:
+            continue
+        obs["backoff_sleeps_checked"] += len(sl)
+        obs["backoff_requested_ms_max"] = max(obs["backoff_requested_ms_max"], int(min(max(sl), 2 ** 62)))
+        nconn = sum(1 for e in ev if e["e"] == "c_connect" and e.get("cur") == i) if case.group == "large-budget" else 0
+        attempts = max(len(trans.get(i, [])), nconn)
+        if attempts - 1 > len(sl):
+            V("C17:backoff:retry-without-sleep",
+              "%s %s (budget %d): %d attempts observed but only %d back-off sleep(s) — %d retr%s started with no back-off at all "
+              "(a non-positive requested duration)" % (r.method, r.token, r.budget, attempts, len(sl), attempts - 1 - len(sl),
+                                                      "y" if attempts - 1 - len(sl) == 1 else "ies"),
+              dict(requested_ms=sl[:80]))
+        low = [(k, x) for k, x in enumerate(sl) if x < 100.0]
+        if low:
+            V("C17:backoff:below-base",
+              "%s %s (budget %d): back-off #%d requested %.0f ms, below the 100 ms base of attempt 0" % (r.method, r.token, r.budget, low[0][0] + 1, low[0][1]),
+              dict(requested_ms=sl[:80]))
+        drop = [(k, sl[k], sl[k + 1]) for k in range(len(sl) - 1) if sl[k + 1] + 99.5 < sl[k]]
+        if drop:
+            V("C17:backoff:decreased",
+              "%s %s (budget %d): back-off #%d requested %.0f ms after #%d had requested %.0f ms" % (r.method, r.token, r.budget, drop[0][0] + 2, drop[0][2], drop[0][0] + 1, drop[0][1]),
+              dict(requested_ms=sl[:80]))
 
     # ---- per connection server-side walk: exchanges, taints
     for key, c in conns.items():
